@@ -187,6 +187,27 @@ def ossl_parse_sig(der):
     return r, s
 
 
+_do_sign_ex = ossl._fn("ECDSA_do_sign_ex", ctypes.c_void_p, [ctypes.c_char_p, ctypes.c_int, ctypes.c_void_p, ctypes.c_void_p, ctypes.c_void_p])
+
+
+def ossl_sign(g, x, digest, k):
+    """ECDSA_do_sign_ex with the nonce fixed by the case (kinv = k^-1 mod n, r = (k*G).x mod n, both computed by libcrypto /
+    python ints), so that the OpenSSL signature - and with it the whole check - is a pure function of the case (replayable)."""
+    n = g.order
+    key = g.make_key(priv=x)
+    kinv, rr = ossl.int2bn(pow(k, -1, n)), ossl.int2bn(g.mul(k)[0] % n)
+    sig = _do_sign_ex(digest, len(digest), kinv, rr, key)
+    ossl.BN_free(kinv)
+    ossl.BN_free(rr)
+    ossl.EC_KEY_free(key)
+    if not sig:
+        ossl.ERR_clear_error()
+        raise RuntimeError("ECDSA_do_sign_ex failed")
+    r, s = ossl.bn2int(ossl.ECDSA_SIG_get0_r(sig)), ossl.bn2int(ossl.ECDSA_SIG_get0_s(sig))
+    ossl.ECDSA_SIG_free(sig)
+    return r, s
+
+
 def enc_sig(enc, r, s, n, via_openssl=False):
     l = olen(n)
     if enc == "string":
@@ -475,12 +496,15 @@ def check_cell(case, rec):
         raise Violation("sign(k=%#x) gives r=%#x s=%#x, ECDSA with libcrypto k*G gives r=%#x s=%#x [%s]" % (k, r1, s1, g.mul(k)[0] % n, ws, ctx(case)))
 
     # (b) OpenSSL signatures ---------------------------------------------------------------------------
-    orr, oss = g.sign(x, digest)
+    k2 = erng.randrange(1, n)
+    orr, oss = ossl_sign(g, x, digest, k2)
+    if not g.verify(pub, digest, orr, oss):
+        raise RuntimeError("harness: OpenSSL does not verify its own signature")
     rec.cls("openssl-sig.high-s" if 2 * oss > n else "openssl-sig.low-s")
     for what, s in (("as produced", oss), ("s replaced by n-s", n - oss)):
         sig = enc_sig(enc, orr, s, n, via_openssl=True)
-        must_verify("OpenSSL ECDSA_do_sign signature (%s) r=%#x s=%#x" % (what, orr, s), vk, sig, case)
-        must_verify("OpenSSL ECDSA_do_sign signature (%s, verify_digest) r=%#x s=%#x" % (what, orr, s), vk, sig, case, digest=digest)
+        must_verify("OpenSSL ECDSA_do_sign_ex signature (%s) r=%#x s=%#x" % (what, orr, s), vk, sig, case)
+        must_verify("OpenSSL ECDSA_do_sign_ex signature (%s, verify_digest) r=%#x s=%#x" % (what, orr, s), vk, sig, case, digest=digest)
 
     # allow_truncate=False --------------------------------------------------------------------------------
     sig0 = sigs[0][1]
